@@ -42,13 +42,8 @@ theorem wf_sound (p : Prog) (h : p.wf = true) : ∃ bs, WF p bs := wf_spec h
 theorem attempt_starts_safe (p : Prog) (env : Env) (pos : Int) (h : p.wf = true)
     (h0 : 0 ≤ pos) (hn : pos ≤ env.len) : ∃ s0, init p pos = .ok s0 ∧ Safe p env s0 := by
   obtain ⟨bs, hwf⟩ := wf_spec h
-  obtain ⟨w, o, hf⟩ := hwf.instr 0 hwf.zero
-  refine ⟨{ codepos := 0, oper := w, textpos := pos, track := [], stack := [],
-             cap := { m := MatchBuilder.newMatch p.capsize, crawl := [] } },
-    by simp [init, hf.fetch, Except.map], bs, hwf, w, o, ⟨hwf, hf, hwf.zero, rfl, rfl, rfl, h0, hn⟩, ?_⟩
-  unfold Shape
-  simp only [hf.noback, hf.noback2]
-  exact Or.inr ⟨trivial, Or.inl trivial⟩
+  obtain ⟨s0, hi, hinv, _, _⟩ := init_inv (env := env) hwf pos h0 hn
+  exact ⟨s0, hi, bs, hwf, hinv⟩
 
 /-- **(b) No structural fault, one step.**  From a safe state, an iteration of the interpreter loop never
     indexes `Codes`, `Strings`, `Sets` or the text out of range, never pops backtracking slots that are not
@@ -100,16 +95,6 @@ theorem attempt_no_structural_fault (p : Prog) (env : Env) (pos : Int) (h : p.wf
   exact ⟨s0, hi, run_no_structural_fault p env fuel s0 hs⟩
 
 /-! ### non-vacuity: the compiled program of `(?:ab?)*c` on "ababc" -/
-
-/-- `Lazybranch 18; Setmark; Nullmark; Goto 11; One a; Oneloopatomic b 1; Branchmark 6; One c;
-    Capturemark 0 -1; Stop` (what the writer emits for `(?:ab?)*c`) -/
-def demo : Prog :=
-  { codes := #[23, 18, 31, 30, 38, 11, 9, 97, 43, 98, 1, 24, 6, 9, 99, 32, 0, -1, 40], strings := #[],
-    nsets := 0, trackcount := 5, capsize := 1, caps := [], rtl := false }
-
-def demoEnv : Env :=
-  { text := #[97, 98, 97, 98, 99], textstart := 0, setMem := fun _ _ => false, toLower := id,
-    wordChar := fun _ => true, ecmaWordChar := fun _ => true, endzStrict := false, ecma := false }
 
 example : demo.wf = true := by decide
 example : demo.boundaries = some [0, 2, 3, 4, 6, 8, 11, 13, 15, 18] := by decide
